@@ -52,6 +52,19 @@ def replay(rec: Dict[str, Any]) -> List[Tuple[str, Dict[str, Any], str]]:
                 # a second selection asked of the same query before the first is read changes nothing about the first
                 qobj.select("nowhere.at.all", projection=(Projection.FLAT if style != Projection.FLAT else Projection.ROOT))
                 got = list(lazy)
+                if isinstance(doc, (list, dict)) and key == "flat":
+                    # the document as JSON text: selected from, the selections edited by the caller, selected from again
+                    tdoc = json.dumps(doc)
+                    for v in list(jsonpath.query(mq, tdoc).select(*args, projection=style)):
+                        if isinstance(v, list):
+                            for x in v:
+                                if isinstance(x, list):
+                                    x.append("edited-by-caller")
+                                elif isinstance(x, dict):
+                                    x["edited-by-caller"] = True
+                    again = list(jsonpath.query(mq, tdoc).select(*args, projection=style))
+                    if json.dumps(again, sort_keys=True) != json.dumps(got, sort_keys=True):
+                        got = again      # judged below like any other result
                 obs = [canon(tag(v)) for v in got]
                 if obs != exp:
                     disc = "wrong-projection" if len(obs) == len(exp) else "wrong-number-of-projections"
